@@ -92,12 +92,21 @@ theorem slotOK_parts {i : OpInfo} (h : slotOK i = true) (hno : isOther i.exec = 
   · intro n hn; rw [hn] at h4; simpa using h4
 
 theorem slotOK_other {i : OpInfo} (h : slotOK i = true) (ho : isOther i.exec = true) :
-    i.memSize = .none ∨ ∃ n, i.memSize = .other n := by
+    memArity i.memSize ≤ i.minStack := by
   unfold slotOK at h
-  have harity : ¬ (isOther i.exec = false) := by simp [ho]
-  cases hm : i.memSize <;> simp [ho, hm] at h ⊢
-  all_goals (cases he : i.exec <;> simp [he, isOther] at ho)
-  all_goals (simp [he, expectedMem] at h)
+  simp only [ho, Bool.true_and, Bool.or_eq_true, decide_eq_true_eq] at h
+  rcases h with h | h
+  · exact h
+  · cases he : i.exec <;> simp [he, isOther] at ho
+    simp only [he, expectedMem, Bool.and_eq_true, beq_iff_eq] at h
+    obtain ⟨⟨⟨_, hm⟩, _⟩, _⟩ := h
+    rw [hm]; simp [memArity]
+
+theorem memorySizeOf_ne_panic_arity (fn : MemFn) (st : List Word) (h : memArity fn ≤ st.length) :
+    memorySizeOf fn st ≠ .panic := by
+  rcases st with _ | ⟨a0, _ | ⟨a1, _ | ⟨a2, _ | ⟨a3, _ | ⟨a4, _ | ⟨a5, _ | ⟨a6, _ | ⟨a7, _ | ⟨a8, tl⟩⟩⟩⟩⟩⟩⟩⟩⟩ <;>
+    cases fn <;> simp only [memArity, List.length_cons, List.length_nil] at h <;>
+    (try omega) <;> simp [memorySizeOf] <;> (repeat' split) <;> simp
 
 /-- No Go panic for every instruction that touches no memory (stack, arithmetic, PUSH/DUP/SWAP,
 jumps, PC/MSIZE/GAS, calldata/code size and load). -/
@@ -392,7 +401,7 @@ theorem step_no_goPanic (H : Bytes → Bytes) (t : Table) (p : GasParams) (f : F
   have hok := slotOK_of_get ht hget
   by_cases hoth : isOther info.exec = true
   · rcases hcase with hp | ⟨gas2, last, ms, _, hex⟩
-    · rcases slotOK_other hok hoth with hm | ⟨n, hm⟩ <;> (rw [hm] at hp; simp [memorySizeOf] at hp)
+    · exact memorySizeOf_ne_panic_arity _ _ (Nat.le_trans (slotOK_other hok hoth) hmin) hp
     · cases he : info.exec <;> simp [he, isOther] at hoth
       rw [he] at hex; simp [execOp] at hex
   · have hoth' : isOther info.exec = false := by
